@@ -203,6 +203,12 @@ class Exporter {
   void calleeFacts(const FunctionDecl *FD, json::Object &O) {
     if (!FD) return;
     O["callee"] = qname(FD);
+    if (FD->isTemplateInstantiation()) {
+      std::string TS;
+      llvm::raw_string_ostream TOS(TS);
+      FD->getNameForDiagnostic(TOS, PP, false);
+      O["callee_targs"] = TOS.str();
+    }
     if (auto *M = dyn_cast<CXXMethodDecl>(FD)) {
       O["callee_class"] = qname(M->getParent());
       if (M->isVirtual()) O["virtual"] = true;
